@@ -4,6 +4,7 @@ package main
 
 import (
 	"fmt"
+	"go/ast"
 	"go/token"
 	"sort"
 	"strings"
@@ -137,6 +138,48 @@ func checkC17(p *Prog, r *Result, tier string) {
 	}
 	r.check(detached, "DET", "utils.NewInheritCtx / result is detached from the argument's cancellation", p.pos(N.Decl), "origins: "+strings.Join(keysOf(orig), ", "),
 		"the returned context may originate from "+strings.Join(keysOf(orig), ", ")+": a rollback running under it is interrupted when the caller's context is cancelled")
+
+	// DET2: the detached context carries no deadline or cancel function of its own either — a deadline copied from the
+	// caller cuts the rollback short exactly when the caller's time budget is what made a step fail
+	{
+		bad := ""
+		seen := map[*FuncNode]bool{}
+		var visit func(fn *FuncNode, depth int)
+		visit = func(fn *FuncNode, depth int) {
+			if fn == nil || fn.Body == nil || seen[fn] || depth > 2 {
+				return
+			}
+			seen[fn] = true
+			ast.Inspect(fn.Body, func(n ast.Node) bool {
+				c, ok := n.(*ast.CallExpr)
+				if !ok || fn.Callee(c) == nil {
+					return true
+				}
+				f := fn.Callee(c)
+				if f.Pkg() != nil && f.Pkg().Path() == "context" {
+					switch f.Name() {
+					case "WithDeadline", "WithTimeout", "WithCancel", "WithDeadlineCause", "WithTimeoutCause", "WithCancelCause":
+						bad = "context." + f.Name() + " at " + p.pos(c)
+					}
+				}
+				if f.Name() == "Deadline" || f.Name() == "Done" {
+					if sel, ok := unparen(c.Fun).(*ast.SelectorExpr); ok {
+						if t := fn.typeOf(sel.X); t != nil && t.String() == "context.Context" {
+							bad = "a read of the argument's " + f.Name() + "() at " + p.pos(c)
+						}
+					}
+				}
+				if t := p.ByObj[f]; t != nil && t.Pkg == fn.Pkg {
+					visit(t, depth+1)
+				}
+				return true
+			})
+		}
+		visit(N, 0)
+		r.min("DET", 2)
+		r.check(bad == "", "DET", "utils.NewInheritCtx / the detached context has no deadline or cancellation of its own", p.pos(N.Decl), "no context.WithDeadline/WithTimeout/WithCancel and no read of the argument's Deadline()/Done() in NewInheritCtx and its helpers",
+			bad+": the context under which rollbacks and deferred clean-ups run expires with the caller's deadline (or on a cancel that nobody can see): a rollback that starts because the caller ran out of time is cut short at once")
+	}
 
 	inFamily := func(f *ssa.Function) bool {
 		for g := f; g != nil; g = g.Parent() {
